@@ -316,7 +316,8 @@ async fn drive(cfg: Cfg, ops: Vec<Op>, listener: &TcpListener) -> String {
     let addr = listener.local_addr().unwrap();
     let n = cfg.svcs.len();
     let factories: Vec<FactoryBox> = (0..n)
-        .map(|i| FactoryBox::tcp(&format!("s{i}"), i, move || ScriptedFactory { idx: i }, addr))
+        // names as `ServerBuilder::bind(name, several addresses, ..)` gives them: neighbouring services share one name
+        .map(|i| FactoryBox::tcp(&format!("s{}", i / 2), i, move || ScriptedFactory { idx: i }, addr))
         .collect();
     let (worker, accept, stop) = match verif::in_thread(
         0,
